@@ -3,7 +3,7 @@
 //! (reference + span from POS/CIGAR resp. POS/REF/END/SVLEN/LEN) computed here, independently of
 //! noodles' alignment_end / variant_end.  Not modelled (obs "-").
 //!
-//!   bam   <seed> <opts>   opts = comma separated: p=mix|bulk|big|tiny|cg  g=<min_shift>:<depth> (CSI)
+//!   bam   <seed> <opts>   opts = comma separated: p=mix|bulk|big|tiny|cg|unplaced  g=<min_shift>:<depth> (CSI)
 //!   bcf   <seed> <opts>   opts: v=43|44|45  svd=0|1  p=mix|bulk|big|tiny
 //!   vcfgz <seed> <opts>   same opts as bcf
 //!
@@ -87,13 +87,14 @@ const CSI_GEOMS: &[(u64, u64)] = &[(14, 5), (14, 5), (14, 5), (14, 6), (12, 5), 
 
 pub fn generate(rng: &mut Rng, tier: &str, w: &mut CaseWriter) {
     let thorough = tier == "thorough";
-    let (nbam, nbcf, nvcf) = if thorough { (300, 150, 150) } else { (24, 12, 14) };
+    let (nbam, nbcf, nvcf) = if thorough { (312, 144, 144) } else { (28, 14, 18) };
     for i in 0..nbam {
         let p = match i % 12 {
             0 => "tiny",
             1 | 2 => "bulk",
             3 | 4 => "big",
             5 if thorough || i == 5 => "cg",
+            6 => "unplaced",
             _ => "mix",
         };
         let (ms, d) = *rng.pick(CSI_GEOMS);
@@ -115,9 +116,6 @@ pub fn generate(rng: &mut Rng, tier: &str, w: &mut CaseWriter) {
                 _ => (44, 0),
             };
             let ec = if i % 4 == 1 { 1 } else { 0 };
-            // BCF: a one-element SVLEN wider than int8 makes the file unindexable (known), so
-            // most BCF svd files keep such values in two-allele records (svd=2)
-            let svd = if kind == "bcf" && svd == 1 && i % 12 != 8 { 2 } else { svd };
             w.push(kind, vec![rng.next().to_string(), format!("p={p},v={v},svd={svd},ec={ec}")]);
         }
     }
@@ -478,7 +476,7 @@ fn layout(rng: &mut Rng, len: u64, shifts: &[(u64, u64)], pr: &Profile) -> Vec<(
                     }
                     let span = match rng.below(8) {
                         0 if s <= edge => edge - s + 1,
-                        1 if s <= edge + 1 => edge - s + 2,
+                        1 if s <= edge + 1 => edge + 2 - s,
                         2 => 0,
                         3 => rng.range(1, 2 * w.min(1 << 22)),
                         _ => small(rng),
@@ -794,6 +792,170 @@ fn judge_regions(
     }
 }
 
+// ---------------------------------------------------------------------------------------------
+// histories on ONE reader object: an answer must not depend on where the stream was left
+
+#[derive(Clone, Copy, Debug, PartialEq)]
+enum Step {
+    /// records() to the end of the file
+    Scan,
+    /// read_record once
+    ReadOne,
+    /// region query, read to its end
+    Query(usize),
+    /// region query of which only the first record is read
+    Partial(usize),
+    /// query_unmapped, read to the end
+    Unmapped,
+}
+
+fn run_script(script: &[Step], mut exec: impl FnMut(Step) -> io::Result<Vec<String>>) -> Vec<Ans> {
+    let mut out = Vec::new();
+    for &st in script {
+        match ans_of(guarded(AssertUnwindSafe(|| exec(st)))) {
+            Ok(v) => out.push(Ans::Names(v)),
+            Err(a) => {
+                out.push(a);
+                break;
+            }
+        }
+    }
+    out
+}
+
+/// regions a (its first record is the latest in the file) and b (the earliest), from the answers
+/// of a fresh reader
+fn pick_ab(fresh: &[Ans], order: &[String]) -> Option<(usize, usize)> {
+    let rank: HashMap<&String, usize> = order.iter().enumerate().map(|(i, n)| (n, i)).collect();
+    let firsts: Vec<(usize, usize)> = fresh
+        .iter()
+        .enumerate()
+        .filter_map(|(i, a)| match a {
+            Ans::Names(v) if !v.is_empty() => rank.get(&v[0]).map(|r| (*r, i)),
+            _ => None,
+        })
+        .collect();
+    let a = firsts.iter().max()?.1;
+    let b = firsts.iter().min()?.1;
+    Some((a, b))
+}
+
+fn scripts(a: usize, b: usize, with_unmapped: bool) -> Vec<Vec<Step>> {
+    use Step::*;
+    if with_unmapped {
+        vec![
+            vec![Scan, Query(a), Query(a)],
+            vec![Scan, Unmapped, Unmapped, Query(a), Unmapped, Query(b)],
+            vec![Query(a), Query(b), Partial(a), Query(b), Query(a)],
+            vec![ReadOne, Unmapped, Query(b), Partial(b), Unmapped],
+        ]
+    } else {
+        vec![
+            vec![Scan, Query(a), Query(a)],
+            vec![Query(a), Query(b), Partial(a), Query(b), Query(a)],
+            vec![ReadOne, Query(b), Scan],
+        ]
+    }
+}
+
+#[allow(clippy::too_many_arguments)]
+fn judge_history(
+    v: &mut Verdicts,
+    fmt: &str,
+    label: &str,
+    script: &[Step],
+    answers: &[Ans],
+    fresh: &[Ans],
+    fresh_unmapped: Option<&Ans>,
+    order: &[String],
+    regions: &[Q],
+    no_placed: bool,
+) {
+    let rank: HashMap<&String, usize> = order.iter().enumerate().map(|(i, n)| (n, i)).collect();
+    let first_rank = |i: usize| match &fresh[i] {
+        Ans::Names(n) if !n.is_empty() => rank.get(&n[0]).copied(),
+        _ => None,
+    };
+    for (k, ans) in answers.iter().enumerate() {
+        let st = script[k];
+        let this = match st {
+            Step::Scan => "scan",
+            Step::ReadOne => "read-record",
+            Step::Query(_) | Step::Partial(_) => "region-query",
+            Step::Unmapped => "unmapped-query",
+        };
+        let prev = if k == 0 {
+            "header".to_string()
+        } else {
+            match (script[k - 1], st) {
+                (Step::Scan, _) => "full-scan".into(),
+                (Step::ReadOne, _) => "one-record-read".into(),
+                (Step::Unmapped, Step::Unmapped) => "unmapped-query-twice".into(),
+                (Step::Unmapped, _) => "unmapped-query".into(),
+                (Step::Partial(_), _) => "partially-read-region-query".into(),
+                (Step::Query(x), Step::Query(y) | Step::Partial(y)) => {
+                    if x == y {
+                        "same-region-query".into()
+                    } else {
+                        match (first_rank(x), first_rank(y)) {
+                            (Some(rx), Some(ry)) if rx > ry => "later-region-query".into(),
+                            _ => "earlier-region-query".to_string(),
+                        }
+                    }
+                }
+                (Step::Query(_), _) => "region-query".into(),
+            }
+        };
+        let tag = if no_placed && st == Step::Unmapped && k > 0 {
+            format!("{fmt}-unmapped-query-on-advanced-reader-of-file-without-placed-records")
+        } else {
+            format!("{fmt}-{this}-after-{prev}")
+        };
+        let expected: Option<Vec<String>> = match st {
+            Step::Scan if k == 0 => Some(order.to_vec()),
+            Step::Scan => None,
+            Step::ReadOne => Some(order.iter().take(1).cloned().collect()),
+            Step::Query(i) => match &fresh[i] {
+                Ans::Names(n) => Some(n.clone()),
+                _ => None,
+            },
+            Step::Partial(i) => match &fresh[i] {
+                Ans::Names(n) => Some(n.iter().take(1).cloned().collect()),
+                _ => None,
+            },
+            Step::Unmapped => match fresh_unmapped {
+                Some(Ans::Names(n)) => Some(n.clone()),
+                _ => None,
+            },
+        };
+        let what = match st {
+            Step::Query(i) | Step::Partial(i) => format!("region {}", regions[i].text()),
+            _ => String::new(),
+        };
+        match ans {
+            Ans::Panic(m) => v.fail(24, format!("{tag}-panics"), format!("{label} steps {:?} {what}: {m}", &script[..=k])),
+            Ans::Err(kd, m) => {
+                // an error that the fresh reader reports as well is judged there
+                let fresh_err = matches!(st, Step::Query(i) | Step::Partial(i) if matches!(fresh[i], Ans::Err(..)));
+                if !fresh_err {
+                    v.fail(25, format!("{tag}-fails"), format!("{label} steps {:?} {what}: Err({kd}: {m})", &script[..=k]));
+                }
+            }
+            Ans::Names(got) => {
+                if let Some(exp) = expected {
+                    if *got != exp {
+                        v.fail(
+                            25,
+                            format!("{tag}-differs-from-fresh-reader"),
+                            format!("{label} steps {:?} {what}: fresh reader={} this reader={}", &script[..=k], short(&exp), short(got)),
+                        );
+                    }
+                }
+            }
+        }
+    }
+}
+
 fn stats(fmt: &str, nrec: &usize, bytes: usize, regions: &[Q]) {
     if std::env::var("NV_C04_STATS").is_ok() {
         eprintln!("{fmt} records={nrec} bytes={bytes} regions={}", regions.len());
@@ -962,7 +1124,8 @@ fn gen_bam(rng: &mut Rng, opts: &str) -> BamFile {
     let maxp = ((1u64 << (geom.0 + 3 * geom.1)) - 1).min((1 << 29) - 1);
     let shifts = [(14u64, 5u64), geom];
     let lens = ref_lengths(rng, maxp, &pr);
-    let pop = populated(rng, lens.len(), &pr);
+    let only_unplaced = opt(opts, "p") == Some("unplaced");
+    let pop = if only_unplaced { vec![false; lens.len()] } else { populated(rng, lens.len(), &pr) };
     let refs: Vec<(String, u64)> = lens.iter().enumerate().map(|(i, l)| (format!("ref{i}"), *l)).collect();
     let mut recs = Vec::new();
     let mut cg_done = !cg;
@@ -992,7 +1155,7 @@ fn gen_bam(rng: &mut Rng, opts: &str) -> BamFile {
         }
     }
     // unplaced tail
-    let ntail = if pr.tiny { rng.below(3) } else { rng.below(16) };
+    let ntail = if only_unplaced { rng.range(3, 600) } else if pr.tiny { rng.below(3) } else { rng.below(16) };
     let odd = rng.chance(1, 10);
     for k in 0..ntail {
         let flags = if odd && k == ntail / 2 { 0 } else { *rng.pick(&[4u16, 77, 141, 4 | 0x200]) };
@@ -1104,6 +1267,28 @@ fn bam_answers_file(path: &Path, regions: &[Q]) -> (Vec<Ans>, Ans) {
     (out, u)
 }
 
+fn bam_history<I: BinningIndex>(data: &[u8], index: &I, regions: &[Q], script: &[Step]) -> Vec<Ans> {
+    let mut reader = bam::io::Reader::new(Cursor::new(data));
+    let header = match ans_of(guarded(AssertUnwindSafe(|| reader.read_header()))) {
+        Ok(h) => h,
+        Err(a) => return vec![a],
+    };
+    run_script(script, |st| match st {
+        Step::Scan => reader.records().map(|r| r.map(|r| rec_name(&r))).collect(),
+        Step::ReadOne => {
+            let mut rec = bam::Record::default();
+            Ok(if reader.read_record(&mut rec)? == 0 { vec![] } else { vec![rec_name(&rec)] })
+        }
+        Step::Query(i) => reader.query(&header, index, &regions[i].region())?.records().map(|r| r.map(|r| rec_name(&r))).collect(),
+        Step::Partial(i) => {
+            let mut q = reader.query(&header, index, &regions[i].region())?;
+            let mut rec = bam::Record::default();
+            Ok(if q.read_record(&mut rec)? == 0 { vec![] } else { vec![rec_name(&rec)] })
+        }
+        Step::Unmapped => reader.query_unmapped(index)?.map(|r| r.map(|r| rec_name(&r))).collect(),
+    })
+}
+
 fn judge_unmapped(v: &mut Verdicts, label: &str, how: &str, items: &[Item], order: &[String], ans: &Ans) {
     let by_name: HashMap<&String, &Item> = items.iter().map(|i| (&i.name, i)).collect();
     let want: Vec<String> = order.iter().filter(|n| by_name[n].rid.is_none() && by_name[n].unmapped).cloned().collect();
@@ -1204,14 +1389,29 @@ fn run_bam(c: &Case) -> Obs {
     let shifts = [(14u64, 5u64), f.geom];
     let regions = gen_regions(&mut rng, &f.refs, &items, f.maxp, &shifts, 20, true);
     stats("bam", &f.recs.len(), data.len(), &regions);
+    if std::env::var("NV_C04_STATS").is_ok() {
+        eprintln!(
+            "  max cigar ops {} placed-unmapped {} zero-span {} unplaced {}",
+            f.recs.iter().map(|r| r.cigar.len()).max().unwrap_or(0),
+            items.iter().filter(|i| i.rid.is_some() && i.unmapped).count(),
+            items.iter().filter(|i| i.rid.is_some() && i.s == i.e).count(),
+            items.iter().filter(|i| i.rid.is_none()).count()
+        );
+    }
     let mut variants: Vec<(String, bool, Vec<Ans>)> = Vec::new();
     let mut unmapped: Vec<(String, bool, Ans)> = Vec::new();
+    let no_placed = items.iter().all(|i| i.rid.is_none());
 
     // BAI through the real indexer
     match ans_of(guarded(AssertUnwindSafe(|| bam::fs::index(&path)))) {
         Err(a) => v.fail(8, "bam-bai-index-build-fails", format!("{a:?}")),
         Ok(index) => {
             let (a, u) = bam_answers_mem(&data, &index, &regions);
+            let (qa, qb) = pick_ab(&a, &order).unwrap_or((0, 0));
+            for sc in scripts(qa, qb, true) {
+                let h = bam_history(&data, &index, &regions, &sc);
+                judge_history(&mut v, "bam", "bai", &sc, &h, &a, Some(&u), &order, &regions, no_placed);
+            }
             variants.push(("bai".into(), false, a));
             unmapped.push(("bai".into(), false, u));
             match ans_of(guarded(AssertUnwindSafe(|| bai::fs::write(tmp.path("f.bam.bai"), &index)))) {
@@ -1230,6 +1430,11 @@ fn run_bam(c: &Case) -> Obs {
         Err(a) => v.fail(8, "bam-csi-index-build-fails", format!("{a:?} geometry {:?}", f.geom)),
         Ok(index) => {
             let (a, u) = bam_answers_mem(&data, &index, &regions);
+            let (qa, qb) = pick_ab(&a, &order).unwrap_or((0, 0));
+            for sc in scripts(qa, qb, true) {
+                let h = bam_history(&data, &index, &regions, &sc);
+                judge_history(&mut v, "bam", "csi", &sc, &h, &a, Some(&u), &order, &regions, no_placed);
+            }
             variants.push(("csi".into(), false, a));
             unmapped.push(("csi".into(), false, u));
             match ans_of(guarded(AssertUnwindSafe(|| csi::fs::write(tmp.path("f.bam.csi"), &index)))) {
@@ -1255,7 +1460,6 @@ fn run_bam(c: &Case) -> Obs {
 // VCF / BCF
 
 const TAG_DEL45: &str = "vcf45-svlen-end-one-base-short-of-spec";
-const TAG_BCF_SVLEN: &str = "bcf45-one-element-wide-svlen-read-as-scalar-index-fails";
 const TAG_INS45: &str = "vcf45-ins-svlen-extends-span-beyond-spec";
 
 struct VRec {
@@ -1290,11 +1494,7 @@ fn bases(rng: &mut Rng, n: usize) -> String {
 fn gen_vcf(rng: &mut Rng, opts: &str) -> VcfFile {
     let pr = profile(opts);
     let version: u32 = opt(opts, "v").and_then(|s| s.parse().ok()).unwrap_or(43);
-    let svd_level: u32 = opt(opts, "svd").and_then(|s| s.parse().ok()).unwrap_or(0);
-    let svd = svd_level >= 1;
-    // svd=2: a one-element SVLEN stays within -120..127 (wider single values are what the lazy BCF
-    // record mis-decodes as a scalar); wider lengths go to a two-allele record
-    let narrow = svd_level == 2;
+    let svd = opt(opts, "svd").and_then(|s| s.parse::<u32>().ok()).unwrap_or(0) >= 1;
     let maxp = (1u64 << 29) - 1;
     let shifts = [(14u64, 5u64)];
     let lens = ref_lengths(rng, maxp, &pr);
@@ -1385,7 +1585,7 @@ fn gen_vcf(rng: &mut Rng, opts: &str) -> VcfFile {
                     r.alts = vec!["<INS>".into()];
                     r.svtype = Some("INS");
                     r.svlen = Some(vec![Some(x as i32)]);
-                    if narrow && x > 127 {
+                    if rng.chance(1, 6) {
                         r.alts = vec![bases(rng, 1), "<INS>".into()];
                         r.svlen = Some(vec![None, Some(x as i32)]);
                     }
@@ -1404,7 +1604,7 @@ fn gen_vcf(rng: &mut Rng, opts: &str) -> VcfFile {
                     let a = *rng.pick(&del_like);
                     r.svtype = Some(if a.starts_with("<DEL") { "DEL" } else if a.starts_with("<DUP") { "DUP" } else if a == "<INV>" { "INV" } else { "CNV" });
                     let l = span - 1; // spec: END = POS + SVLEN
-                    if rng.chance(1, 5) || (narrow && l > 127) {
+                    if rng.chance(1, 5) {
                         r.alts = vec![bases(rng, 1), a.to_string()];
                         r.svlen = Some(vec![None, Some(l as i32)]);
                     } else {
@@ -1588,6 +1788,52 @@ fn vcf_answers_file(path: &Path, bcf_fmt: bool, regions: &[Q]) -> Vec<Ans> {
         .collect()
 }
 
+fn vcf_history<I: BinningIndex>(data: &[u8], bcf_fmt: bool, index: &I, regions: &[Q], script: &[Step]) -> Vec<Ans> {
+    let bid = |r: &bcf::Record| String::from_utf8_lossy(r.ids().as_ref()).into_owned();
+    let vid = |r: &vcf::Record| r.ids().as_ref().to_string();
+    if bcf_fmt {
+        let mut reader = bcf::io::Reader::new(Cursor::new(data));
+        let header = match ans_of(guarded(AssertUnwindSafe(|| reader.read_header()))) {
+            Ok(h) => h,
+            Err(a) => return vec![a],
+        };
+        run_script(script, |st| match st {
+            Step::Scan => reader.records().map(|r| r.map(|r| bid(&r))).collect(),
+            Step::ReadOne => {
+                let mut rec = bcf::Record::default();
+                Ok(if reader.read_record(&mut rec)? == 0 { vec![] } else { vec![bid(&rec)] })
+            }
+            Step::Query(i) => reader.query(&header, index, &regions[i].region())?.records().map(|r| r.map(|r| bid(&r))).collect(),
+            Step::Partial(i) => {
+                let mut q = reader.query(&header, index, &regions[i].region())?;
+                let mut rec = bcf::Record::default();
+                Ok(if q.read_record(&mut rec)? == 0 { vec![] } else { vec![bid(&rec)] })
+            }
+            Step::Unmapped => Ok(vec![]),
+        })
+    } else {
+        let mut reader = vcf::io::Reader::new(bgzf::io::Reader::new(Cursor::new(data)));
+        let header = match ans_of(guarded(AssertUnwindSafe(|| reader.read_header()))) {
+            Ok(h) => h,
+            Err(a) => return vec![a],
+        };
+        run_script(script, |st| match st {
+            Step::Scan => reader.records().map(|r| r.map(|r| vid(&r))).collect(),
+            Step::ReadOne => {
+                let mut rec = vcf::Record::default();
+                Ok(if reader.read_record(&mut rec)? == 0 { vec![] } else { vec![vid(&rec)] })
+            }
+            Step::Query(i) => reader.query(&header, index, &regions[i].region())?.records().map(|r| r.map(|r| vid(&r))).collect(),
+            Step::Partial(i) => {
+                let mut q = reader.query(&header, index, &regions[i].region())?;
+                let mut rec = vcf::Record::default();
+                Ok(if q.read_record(&mut rec)? == 0 { vec![] } else { vec![vid(&rec)] })
+            }
+            Step::Unmapped => Ok(vec![]),
+        })
+    }
+}
+
 fn run_vcf_like(c: &Case, bcf_fmt: bool) -> Obs {
     let fmt = if bcf_fmt { "bcf" } else { "vcf" };
     let seed = c.u(0);
@@ -1632,13 +1878,7 @@ fn run_vcf_like(c: &Case, bcf_fmt: bool) -> Obs {
         if s.1 != f.contigs[i.rid.unwrap()].0 || s.2 != Some(i.s as usize) {
             v.fail(1, format!("{fmt}-scan-position-differs-from-written"), format!("{} {} {:?}", i.name, s.1, s.2));
         } else if s.3.is_none() {
-            let r = &f.recs[k];
-            let wide = bcf_fmt && f.version >= 45 && matches!(r.svlen.as_deref(), Some([Some(n)]) if !(-120..=127).contains(n));
-            if wide {
-                v.fail(70, TAG_BCF_SVLEN, format!("record {} POS {} SVLEN {:?}: variant_end fails", i.name, i.s, r.svlen));
-            } else {
-                v.fail(30, format!("{fmt}-variant-end-error"), format!("record {} v4.{} POS {} spec end {}", i.name, f.version % 10, i.s, i.e));
-            }
+            v.fail(30, format!("{fmt}-variant-end-error"), format!("record {} v4.{} POS {} SVLEN {:?} spec end {}", i.name, f.version % 10, i.s, f.recs[k].svlen, i.e));
         } else if s.3 != Some(i.e as usize) {
             if s.3 == Some(i.e2 as usize) {
                 v.fail(85, i.cls, format!("record {} v4.{} POS {} spec end {} variant_end {:?}", i.name, f.version % 10, i.s, i.e, s.3));
@@ -1664,19 +1904,16 @@ fn run_vcf_like(c: &Case, bcf_fmt: bool) -> Obs {
     let label = if bcf_fmt { "csi" } else { "tabix" };
     if bcf_fmt {
         match ans_of(guarded(AssertUnwindSafe(|| bcf::fs::index(&path)))) {
-            Err(a) => {
-                // cause: a one-element SVLEN outside -120..127 is decoded as a scalar by the lazy
-                // record, which variant_end (4.5) rejects
-                let wide = f.version >= 45
-                    && f.recs.iter().any(|r| matches!(r.svlen.as_deref(), Some([Some(n)]) if !(-120..=127).contains(n)));
-                if wide && matches!(&a, Ans::Err(k, _) if k == "InvalidData") {
-                    v.fail(70, TAG_BCF_SVLEN, format!("bcf::fs::index: {a:?}"));
-                } else {
-                    v.fail(8, "bcf-csi-index-build-fails", format!("{a:?}"));
-                }
-            }
+            Err(a) => v.fail(8, "bcf-csi-index-build-fails", format!("{a:?}")),
             Ok(index) => {
-                variants.push((label.into(), false, vcf_answers(&data, true, &index, &regions)));
+                let a = vcf_answers(&data, true, &index, &regions);
+                if let Some((qa, qb)) = pick_ab(&a, &order) {
+                    for sc in scripts(qa, qb, false) {
+                        let h = vcf_history(&data, true, &index, &regions, &sc);
+                        judge_history(&mut v, fmt, label, &sc, &h, &a, None, &order, &regions, false);
+                    }
+                }
+                variants.push((label.into(), false, a));
                 match ans_of(guarded(AssertUnwindSafe(|| csi::fs::write(tmp.path("f.bcf.csi"), &index)))) {
                     Err(a) => v.fail(8, "bcf-csi-index-write-fails", format!("{a:?}")),
                     Ok(()) => variants.push((label.into(), true, vcf_answers_file(&path, true, &regions))),
@@ -1687,7 +1924,14 @@ fn run_vcf_like(c: &Case, bcf_fmt: bool) -> Obs {
         match ans_of(guarded(AssertUnwindSafe(|| vcf::fs::index(&path)))) {
             Err(a) => v.fail(8, "vcf-tabix-index-build-fails", format!("{a:?}")),
             Ok(index) => {
-                variants.push((label.into(), false, vcf_answers(&data, false, &index, &regions)));
+                let a = vcf_answers(&data, false, &index, &regions);
+                if let Some((qa, qb)) = pick_ab(&a, &order) {
+                    for sc in scripts(qa, qb, false) {
+                        let h = vcf_history(&data, false, &index, &regions, &sc);
+                        judge_history(&mut v, fmt, label, &sc, &h, &a, None, &order, &regions, false);
+                    }
+                }
+                variants.push((label.into(), false, a));
                 match ans_of(guarded(AssertUnwindSafe(|| tabix::fs::write(tmp.path("f.vcf.gz.tbi"), &index)))) {
                     Err(a) => v.fail(8, "vcf-tabix-index-write-fails", format!("{a:?}")),
                     Ok(()) => variants.push((label.into(), true, vcf_answers_file(&path, false, &regions))),
